@@ -175,31 +175,16 @@ def sublattices(tier, seed):
                      'burn_pattern': 'all 2^(n-1) zero/positive patterns for n<=5, menu of 8 for n=7', 'cfg': SPINE_NAMES},
             'cases': cases,
         })  # fmt: skip
-        cases = []
-        ns = [2, 3, 5]
-        for n in ns:
-            sp = [(0, 0), (1, 1), (n // 2, n - n // 2)]
-            bs = [[1] * (n - 1), [i % 2 for i in range(n - 1)]]
-            for (nc, nd), b, alt, tas, ff, cfg in itertools.product(sp, bs, ALT_PROFILES, TAS_VALUES, FF_PROFILES, SPINE_NAMES):
-                cases.append(_tcase(n, nc, nd, b, alt, tas, ff, cfg))
-        subs.append({
-            'name': 'S1b profiles x spine (3 splits, 2 burn patterns)',
-            'axes': {'n': ns, 'phase_split': ['none', '(1,1)', 'empty cruise'], 'burn_pattern': ['all positive', 'alternating'],
-                     'alt': ALT_PROFILES, 'tas': TAS_VALUES, 'ff': FF_PROFILES, 'cfg': SPINE_NAMES},
-            'cases': cases,
-        })  # fmt: skip
-    else:
+    if thorough:
         cases = []
         ns = [1, 2, 3, 4, 5]
         for n in ns:
-            for (nc, nd), b, alt, tas, ff, cfg in itertools.product(
-                _splits(n), _burn_patterns(n), ALT_PROFILES, TAS_VALUES, FF_PROFILES, SPINE_NAMES
-            ):
-                cases.append(_tcase(n, nc, nd, b, alt, tas, ff, cfg))
+            for (nc, nd), b, alt, ff, cfg in itertools.product(_splits(n), _burn_patterns(n), ALT_PROFILES, FF_PROFILES, SPINE_NAMES):
+                cases.append(_tcase(n, nc, nd, b, alt, 235.0, ff, cfg))
         subs.append({
-            'name': 'S1 shapes x profiles x spine (full product, n<=5)',
+            'name': 'S1 shapes x altitude x fuel-flow profiles x spine (full product, n<=5, TAS 235)',
             'axes': {'n': ns, 'phase_split': 'all (n_climb, n_descent) with sum <= n', 'burn_pattern': 'all 2^(n-1)',
-                     'alt': ALT_PROFILES, 'tas': TAS_VALUES, 'ff': FF_PROFILES, 'cfg': SPINE_NAMES},
+                     'alt': ALT_PROFILES, 'ff': FF_PROFILES, 'cfg': SPINE_NAMES},
             'cases': cases,
         })  # fmt: skip
         cases = []
@@ -213,6 +198,21 @@ def sublattices(tier, seed):
             'axes': {'n': ns, 'phase_split': 'all', 'burn_pattern': 'menu of 8', 'profile': [list(p) for p in prof], 'cfg': SPINE_NAMES},
             'cases': cases,
         })  # fmt: skip
+
+    # S1b (both tiers): the only place where the TAS axis is crossed
+    cases = []
+    ns = [2, 3, 5]
+    for n in ns:
+        sp = [(0, 0), (1, 1), (n // 2, n - n // 2)]
+        bs = [[1] * (n - 1), [i % 2 for i in range(n - 1)]]
+        for (nc, nd), b, alt, tas, ff, cfg in itertools.product(sp, bs, ALT_PROFILES, TAS_VALUES, FF_PROFILES, SPINE_NAMES):
+            cases.append(_tcase(n, nc, nd, b, alt, tas, ff, cfg))
+    subs.append({
+        'name': 'S1b profiles x spine (3 splits, 2 burn patterns)',
+        'axes': {'n': ns, 'phase_split': ['none', '(1,1)', 'empty cruise'], 'burn_pattern': ['all positive', 'alternating'],
+                 'alt': ALT_PROFILES, 'tas': TAS_VALUES, 'ff': FF_PROFILES, 'cfg': SPINE_NAMES},
+        'cases': cases,
+    })  # fmt: skip
 
     # ---- S2
     cases = []
